@@ -218,6 +218,46 @@ func ruleR18_4(w *World, r *Report) {
 	if !found {
 		r.Bad("ReceiveNotification/own notification ignored", u.Pos(rcv.Pos()), "a notification no longer triggers a sync")
 	}
+	// the question "is this replica behind?" is asked for every foreign notification of a known datatype: an exit
+	// that does not pass NeedPull may only depend on the notification's origin, the registry lookup and the DUID
+	// (not, e.g., on NeedPush: the push-pull in flight may already have been answered)
+	for _, nd := range d.nodes {
+		forEachOwnInstr(nd.fn, func(in ssa.Instruction) {
+			ret, ok := in.(*ssa.Return)
+			if !ok || ret.Block().Comment == "recover" {
+				return
+			}
+			passes := false
+			for _, x := range d.calls("NeedPull") {
+				if x.n == nd && instrDominates(x.in, ret) {
+					passes = true
+				}
+				if x.n != nd && x.n.parent == nd {
+					// asked inside a helper called from this function: judged at the helper's own returns
+					if site, isIn := x.n.site.(ssa.Instruction); isIn && instrDominates(site, ret) {
+						passes = true
+					}
+				}
+			}
+			if passes {
+				return
+			}
+			lp, okl := d.localPaths(nd, ret, nil)
+			if !okl {
+				return
+			}
+			for _, p := range lp {
+				for _, l := range p.strs {
+					isLookupOk := (strings.HasSuffix(l, "#1") || strings.HasSuffix(l, "]")) && (strings.HasPrefix(l, "$0.dataMap[") || strings.HasPrefix(l, "!$0.dataMap["))
+					if strings.Contains(l, ".CUID") || isLookupOk || strings.Contains(l, "GetDUID()") || strings.HasSuffix(l, ".DUID") {
+						continue
+					}
+					r.Bad("ReceiveNotification/NeedPull asked for every foreign notification", u.Pos(ret.Pos()), "an exit that never asks NeedPull depends on "+l+": a notification is dropped for a reason other than its origin or its datatype (for example because a push is pending - but that push-pull may already have been answered without the announced operations), and nobody repeats it")
+					return
+				}
+			}
+		})
+	}
 	// ... and a replica that is behind does sync: from the true edge of NeedPull every path reaches the sync
 	// (waiting for the semaphore is fine, giving up silently is not: nobody repeats a dropped notification)
 	for _, nd := range d.nodes {
@@ -316,12 +356,11 @@ func ruleR18_5(w *World, r *Report) {
 	}
 	lin, _ := pathLinCmps(fn, g, nil)
 	r.Check(allPathsHave(lin, "+$0.ctx.Client.SyncType-2 == 0"), "DeliverTransaction/realtime only", u.Pos(g.Pos()), "only for SyncType_REALTIME", fmt.Sprintf("the background sync starts under %v", lin))
-	mc, _ := g.Call.Value.(*ssa.MakeClosure)
-	if mc == nil {
-		r.Undecided("DeliverTransaction/goroutine", u.Pos(g.Pos()), "goroutine body is not a closure")
+	body := startedBody(&g.Call)
+	if body == nil {
+		r.Undecided("DeliverTransaction/goroutine", u.Pos(g.Pos()), "the body of the goroutine could not be resolved")
 		return
 	}
-	body := mc.Fn.(*ssa.Function)
 	semaSection(u, r, body, "DeliverTransaction$goroutine", "TryAcquire", true)
 }
 
@@ -358,7 +397,7 @@ func semaSection(u *Universe, r *Report, fn *ssa.Function, owner, acquire string
 		if calleeName(d) == "Release" {
 			def = d
 		}
-		if mc, ok := d.Call.Value.(*ssa.MakeClosure); ok && len(callsNamed(mc.Fn.(*ssa.Function), "Release")) > 0 {
+		if b := startedBody(&d.Call); b != nil && calleeName(d) != "Release" && len(callsNamed(b, "Release")) > 0 {
 			def = d
 		}
 	})
@@ -393,10 +432,12 @@ func semaSection(u *Universe, r *Report, fn *ssa.Function, owner, acquire string
 	}
 	r.Check(okDef, owner+"/release on every exit", u.Pos(acq.Pos()), "defer Release placed before the exchange", "the semaphore is not released by a defer placed before the exchange: an error return or panic of the sync leaks it, and every later sync of this client blocks or is silently skipped")
 	if recheck && def != nil {
-		mc, _ := def.Call.Value.(*ssa.MakeClosure)
+		df := startedBody(&def.Call)
+		if calleeName(def) == "Release" {
+			df = nil
+		}
 		good := false
-		if mc != nil {
-			df := mc.Fn.(*ssa.Function)
+		if df != nil {
 			var rel, np, dl ssa.CallInstruction
 			for _, c := range callsNamed(df, "Release") {
 				rel = c
@@ -417,8 +458,7 @@ func semaSection(u *Universe, r *Report, fn *ssa.Function, owner, acquire string
 		// not only at the one that has just synced (F33)
 		all := false
 		seen := ""
-		if mc != nil {
-			df := mc.Fn.(*ssa.Function)
+		if df != nil {
 			for _, c := range callsNamed(df, "NeedPush") {
 				recv, _ := recvAndArgs(c)
 				o := origins(recv)
@@ -437,3 +477,16 @@ func semaSection(u *Universe, r *Report, fn *ssa.Function, owner, acquire string
 
 var _ = ast.Inspect
 var _ = sort.Strings
+
+// startedBody: the function a go / defer statement runs: the closure it creates, or the (orda) function or method it
+// names. A closure that a refactoring turned into a named method keeps its role.
+func startedBody(c *ssa.CallCommon) *ssa.Function {
+	if mc, ok := c.Value.(*ssa.MakeClosure); ok {
+		f, _ := mc.Fn.(*ssa.Function)
+		return f
+	}
+	if f := c.StaticCallee(); f != nil && f.Pkg != nil && isOrda(f.Pkg.Pkg.Path()) && len(f.Blocks) > 0 {
+		return f
+	}
+	return nil
+}
